@@ -136,9 +136,24 @@ template <class G>
 void buildFromCase(const Case &c, G &g, BModel<typename BT<G>::Label> &m) {
     typedef typename BT<G>::Label L;
     m.directed = BT<G>::directed;
-    size_t n = (size_t)std::min<long long>(40, std::max<long long>(0, c.geti("n", 0)));
+    long long dense = c.geti("dense", 0);
+    if (c.geti("dense_auto", 0))
+        dense = 60 + c.geti("n", 0) % 21;
+    size_t n = (size_t)std::min<long long>(dense > 0 ? 200 : 40, std::max<long long>(0, c.geti("n", 0)));
     m.n = n;
     g = G(n);
+    // `dense d`: every vertex i joined to i+1 .. i+d (modulo n): files of thousands of records (buffers of a writer or loader fill up)
+    for (long long k = 1; k <= dense && n > 0; ++k)
+        for (unsigned i = 0; i < n; ++i) {
+            unsigned j = (unsigned)((i + k) % n);
+            UPair key = m.key(i, j);
+            if (m.e.count(key))
+                continue;
+            L v = Val<L>::mk((long long)(i * 31 + k));
+            m.e[key] = v;
+            m.order.emplace_back(UPair(i, j), v);
+            g.addEdge(i, j, v);
+        }
     for (const Op &op : c.ops)
         if (op.kind == "e" && n > 0) {
             unsigned i = (unsigned)(op.u(0) % n), j = (unsigned)(op.u(1) % n);
@@ -410,6 +425,24 @@ std::string cuts(const Case &c, std::string &observer, std::set<std::string> &ta
         if (cut % rec != 0)
             tags.insert("cut_inside_record");
     }
+    // the same file with one record spliced in at every record boundary whose first, second or both indices are 0xFFFFFFFF
+    // (index+1 wraps to 0: no allocation is attempted): the loader returns or throws std::exception, without a memory error
+    for (size_t at = 0; at <= recs.size(); ++at)
+        for (int which = 1; which <= 3; ++which) {
+            std::string extra;
+            le32(extra, (which & 1) ? 0xFFFFFFFFu : 0u);
+            le32(extra, (which & 2) ? 0xFFFFFFFFu : 0u);
+            extra.append(Val<L>::size, '\1');
+            writeAll(f.p, bytes.substr(0, at * rec) + extra + bytes.substr(at * rec));
+            ++work;
+            try {
+                G h = BT<G>::load(f.p);
+                (void)h.getSize();
+                tags.insert("wrap_index_accepted");
+            } catch (const std::exception &) {
+                tags.insert("wrap_index_rejected_by_exception");
+            }
+        }
     return "";
 }
 
@@ -439,13 +472,35 @@ std::string rawBin(const Case &c, std::string &observer, std::set<std::string> &
         return (uint32_t)(unsigned char)bytes[off] | ((uint32_t)(unsigned char)bytes[off + 1] << 8) | ((uint32_t)(unsigned char)bytes[off + 2] << 16) |
                ((uint32_t)(unsigned char)bytes[off + 3] << 24);
     };
+    bool wrapIndex = false;
     for (size_t k = 0; k < complete; ++k) {
         uint32_t a = u32(k * rec), b = u32(k * rec + 4);
-        if (a >= 65536 || b >= 65536) {
+        // 0xFFFFFFFF: index+1 wraps to 0, nothing huge is allocated: in the domain, but no graph can hold such a vertex
+        if ((a >= 65536 && a != 0xFFFFFFFFu) || (b >= 65536 && b != 0xFFFFFFFFu)) {
             verdict = 2;
             return "index outside the allocatable domain";
         }
+        if (a == 0xFFFFFFFFu || b == 0xFFFFFFFFu) {
+            wrapIndex = true;
+            continue;
+        }
         n = std::max<size_t>(n, std::max(a, b) + 1);
+    }
+    if (wrapIndex) {
+        FileGuard fw{scratchFile(".rawbin")};
+        writeAll(fw.p, bytes);
+        tags.insert("index_0xFFFFFFFF");
+        try {
+            G h = BT<G>::load(fw.p);
+            (void)h.getSize();
+            tags.insert("loader_returned");
+        } catch (const std::exception &) {
+            tags.insert("loader_threw_std_exception");
+        } catch (...) {
+            observer = "non-std-exception";
+            return "the loader threw something not derived from std::exception";
+        }
+        return "";
     }
     nb.resize(n);
     for (size_t k = 0; k < complete; ++k) {
